@@ -10,6 +10,7 @@ import vlib
 
 PKG = "./felix/ipsets/"
 KEY_LEAK = "temp-set-leaked-after-failed-write"
+KEY_FLAGS = "temp-set-inherits-delete-failed"
 
 
 def classify(line):
@@ -18,6 +19,10 @@ def classify(line):
     tags = line.get("tags", [])
     if "tree:unrepaired" in tags and "leak-shape" in tags:
         return KEY_LEAK
+    # second class: a set whose destroy was refused becomes desired again with other parameters; the temporary set that
+    # receives its old incarnation inherits the DeleteFailed flag and is not deleted until the next resync.
+    if "tree:nofix2" in tags and "delete-failed-shape" in tags and "swap" in tags:
+        return KEY_FLAGS
     return None
 
 
@@ -37,8 +42,8 @@ def apply_order(ctx, lines):
 CFG = dict(
     imports=["From Verif.C16 Require Import Model Spec.", "Open Scope N_scope."],
     checker="check_case",
-    n=dict(quick=24, thorough=4000),
-    shard=6,
+    n=dict(quick=40, thorough=4000),
+    shard=10,
     classify=classify,
     extra=apply_order,
     rule="histories of 2-5 rounds (0-3 AddOrReplaceIPSet/AddMembers/RemoveMembers/RemoveIPSet calls over 2-4 set ids, three "
